@@ -144,7 +144,10 @@ def basis_spline(  # pylint: disable=dangerous-default-value  # always replaced 
 
     # Prepare knots
     if "knots" not in _state:
-        knots = [] if knots is None else list(knots)
+        # Interior knots are a set of breakpoints (repeats lower the smoothness at
+        # that point); the recursion below needs them in non-decreasing order,
+        # whatever order the caller listed them in (as in R and patsy).
+        knots = [] if knots is None else sorted(knots)
         if df:
             nknots = df - degree - (1 if include_intercept else 0)
             if nknots < 0:
